@@ -131,3 +131,14 @@ Theorem C05_inbound_ref_proven : forall (cert : Type) (tubid_of : cert -> list Z
   accept_inbound_ref x u = true -> proven cert tubid_of (conn_cert cert c) u.
 Proof. exact inbound_ref_proven. Qed.
 Print Assumptions C05_inbound_ref_proven.
+
+(* "(and getReference on a FURL naming X succeeds over it) only if ...", request by request: for every history of
+   getReference calls made before startService (queued) and after it, the answer delivered to a request was obtained for
+   that request's own FURL -- over the Tub.brokers entry of the tub id it names (which C05_getReference_proven ties to the
+   leaf certificate) and asking the peer for the name it names *)
+Theorem C05_getReference_answers_own_request : forall (evs : list gr_event) r a,
+  In (r, a) (g_delivered (gr_run evs)) ->
+  exists f, In (r, f) (g_log (gr_run evs)) /\ a_key a = f_tub f /\ a_name a = f_name f /\
+            (forall f', In (r, f') (g_log (gr_run evs)) -> f' = f).
+Proof. exact gr_answers_match. Qed.
+Print Assumptions C05_getReference_answers_own_request.
